@@ -10,7 +10,7 @@ file; exit 0 => outputs identical to the fault-free run.
 """
 import os, sys, re, json, subprocess, errno
 from common import *
-import vfbuild, pipelines
+import vfbuild, blockproc, pipelines
 
 PROP = "C13"
 REF_PLAN = "seed 1\nsched rr\nreaddir 0\n"
@@ -261,6 +261,8 @@ def rerun(bdir, casespec, plan, label):
 
 
 def replay(spec, bdir=None):
+    if spec.get('engine') == 'scn-blockproc':
+        return blockproc.replay(spec, bdir)
     bdir = bdir or vfbuild.build()
     clause, detail, o = rerun(bdir, spec["case"], spec["plan"], spec["label"])
     ok = clause == spec["clause"]
@@ -389,6 +391,11 @@ def finish(rep, bdir, results, tasks, runs, fired, outcomes, samples, total_posi
     }
     if fired < runs * 0.8:
         rep.harness_error("insufficient reach: only %d of %d planned faults fired" % (fired, runs))
+    # library-level stage: the same components in-process, many more schedules per workload (scn/blockproc.c, py/blockproc.py)
+    lib = blockproc.stage(rep, PROP, bdir, master_seed(), tier())
+    cov["library_level_stage"] = lib
+    cov["evaluations"] = cov.get("evaluations", 0) + lib["runs"]
+    cov["distinct_nontrivial"] = cov.get("distinct_nontrivial", 0) + lib["runs_with_interleaving"]
     return rep.finish(cov, ["single-fault model (one failing call, or EINTR then failure); allocation faults are transient (only the k-th fails)",
                             "early EOF is only injected where the tool knows the expected length (tar stream, image reads)",
                             "close() failures are not injected (results deliberately ignored on read-only descriptors)"])
